@@ -7,6 +7,9 @@ Last mile (Props/RefineE2E.lean), part 1: what the optimiser bridge needs about 
   So its runs (`RunI`, Lemmas/RefineRunI.lean) are runs that do not depend on the nested
   interpreter (`Run`), in particular they are runs of `Vm.run` with nesting fuel 1, which is where
   bC_opt's `C09Vm.optimize_preserves_output` needs no assumption on nested calls.
+* `run_depth_irrel`: an `interpret` call that ends with nesting fuel 1 (every nested call is "out
+  of fuel") ends the same way with any nesting fuel `≥ 1` (`step_rec0`: a turn either is out of
+  fuel with the empty nested interpreter or does not depend on the nested interpreter).
 * `typedCode_nodes`: the typed form (`Pipeline.typedCode` = `Refine.embed`) of a compiled statement
   list exists.
 -/
@@ -657,5 +660,66 @@ theorem typedCode_of_vi : ∀ (code : Code), AllC Pipeline.VI code → ∃ tcode
 /-- the typed form of a compiled statement list exists -/
 theorem typedCode_nodes (ns : List Node) : ∃ tcode, Pipeline.typedCode (nodesCode 0 none ns) = some tcode :=
   typedCode_of_vi _ (Pipeline.vi_nodes ns 0 none)
+
+/-! ### the nested interpreter is not called -/
+
+/-- the nested interpreter that is always out of fuel (nesting fuel 0) -/
+def rec0 : VmCtx → Chunk → State → RunRes := fun _ _ _ => .outOfFuel
+
+theorem step_rec0 (rec : VmCtx → Chunk → State → RunRes) (env : Vm.Env) (vm : VmCtx) (c : Chunk)
+    (e : VEntry) (pc : Nat) (st : State) :
+    step rec0 env vm c e pc st = .outOfFuel ∨
+      step rec env vm c e pc st = step rec0 env vm c e pc st := by
+  obtain ⟨i, sps⟩ := e
+  cases i <;> first | (right; rfl) | skip
+  case include_ n =>
+    simp only [step, stepInclude, rec0]
+    split <;> simp
+  case renderBlock n =>
+    simp only [step, stepRenderBlock, rec0]
+    split <;> simp
+  case callFunction n =>
+    simp only [step, stepCallFunction, stepSuper, rec0]
+    repeat' split
+    all_goals simp
+  case renderComponent n hb =>
+    simp only [step, stepComponent, rec0]
+    repeat' split
+    all_goals simp
+
+/-- a loop that ends (or fails) without the nested interpreter does the same with any -/
+theorem runLoop_rec0 (rec : VmCtx → Chunk → State → RunRes) (env : Vm.Env) (vm : VmCtx) (c : Chunk) :
+    ∀ (n pc : Nat) (st : State), runLoop rec0 env vm c n pc st ≠ .outOfFuel →
+      runLoop rec env vm c n pc st = runLoop rec0 env vm c n pc st := by
+  intro n
+  induction n with
+  | zero => intro pc st _; simp only [runLoop]
+  | succ n ih =>
+    intro pc st hne
+    simp only [runLoop] at hne ⊢
+    cases hc : c.code[pc]? with
+    | none => rfl
+    | some e =>
+      simp only [hc] at hne ⊢
+      rcases step_rec0 rec env vm c e pc st with h0 | h0
+      · rw [h0] at hne; exact absurd rfl hne
+      · rw [h0]
+        cases hs : step rec0 env vm c e pc st with
+        | next pc' st' =>
+          rw [hs] at hne
+          simp only at hne ⊢
+          exact ih pc' st' hne
+        | err e => rfl
+        | panic s => rfl
+        | unmodelled w => rfl
+        | outOfFuel => rfl
+
+/-- … so one `interpret` call that ends with nesting fuel 1 ends the same way with any nesting
+fuel `≥ 1` -/
+theorem run_depth_irrel (env : Vm.Env) (vm : VmCtx) (c : Chunk) (st : State) (steps depth : Nat)
+    (hne : Vm.run ⟨1, steps⟩ env vm c st ≠ .outOfFuel) :
+    Vm.run ⟨depth + 1, steps⟩ env vm c st = Vm.run ⟨1, steps⟩ env vm c st := by
+  simp only [Vm.run, interp] at hne ⊢
+  exact runLoop_rec0 _ env vm c steps 0 st hne
 
 end Tera.RefineE2E
